@@ -1101,7 +1101,7 @@ def units(tier, seed):
     for D, ns in heterr_cfg:
         add('heterr-D%d-s%d' % (D, ns), make_heterr_body(D, ns), dict(max_depth=D, n_subsampling=ns), 3 * (ns + 1) ** 2)
     pipe_cfg = [((3,), (2,), (2,)), ((3,), (4,), (2,)), ((3,), (4,), (4,)), ((2, 2), (2, 2), (2, 2)),
-                ((2, 2), (4, 2), (4, 2))]
+                ((2, 2), (4, 2), (4, 2)), ((2, 2, 2), (2, 2, 2), (2, 2, 2))]
     if th:
         pipe_cfg += [((4,), (6,), (2,)), ((4,), (6,), (4,)), ((4,), (6,), (6,)), ((80,), (4,), (2,)),
                      ((2, 2), (4, 2), (2, 2)), ((2, 2), (4, 4), (2, 2)),
@@ -1112,6 +1112,36 @@ def units(tier, seed):
         nout = int(np.prod([s + 1 for s in nsub]))
         add(nm, make_pipeline_body(Ds, nseq, nsub), dict(max_depth=list(Ds), n_sequenced=list(nseq),
                                                          n_subsampling=list(nsub), sim_threshold=1), 4 * nout)
+    # ---- call history: two data sets with the same population labels / sizes / options but different coverage, in one
+    #      process (a memo keyed on the labels alone would hand the second wrapper the first one's matrices)
+    class _Pref:
+        def __init__(self, env, p):
+            self._e, self._p, self.symbolic = env, p, env.symbolic
+
+        def __getattr__(self, k):
+            return getattr(self._e, k)
+
+        def real(self, name, *a, **kw):
+            return self._e.real(self._p + name, *a, **kw)
+
+        def array(self, name, *a, **kw):
+            return self._e.array(self._p + name, *a, **kw)
+
+        def eq(self, label, *a, **kw):
+            return self._e.eq(self._p + ':' + label, *a, **kw)
+
+        def holds(self, label, *a, **kw):
+            return self._e.holds(self._p + ':' + label, *a, **kw)
+
+    def hist_body(cfgs):
+        bodies = [make_pipeline_body(*c_, full=False) for c_ in cfgs]
+
+        def body(env):
+            for k_, b_ in enumerate(bodies):
+                b_(_Pref(env, 'h%d' % k_))
+        return body
+    add('pipeline-history-1pop-D2-then-D3-seq4-sub2', hist_body([((2,), (4,), (2,)), ((3,), (4,), (2,))]),
+        dict(history=[[2, 4, 2], [3, 4, 2]], sim_threshold=1), 12)
     for nseq, nsub in ([(4, 2)] + ([(4, 4), (6, 4)] if th else [])):
         add('deep-depth78to80-seq%d-sub%d' % (nseq, nsub), make_deep80_body(nseq, nsub, 78, 80),
             dict(n_sequenced=nseq, n_subsampling=nsub, depths=[78, 80]), nsub + 1)
